@@ -145,11 +145,13 @@ inductive SVal where
   | sq (v : Bytes)
   deriving Repr, DecidableEq, Inhabited
 
-/-- one attribute: leading white space, key, value -/
+/-- one attribute: leading white space, key, value; `ws1` / `ws2` = white space before / after the `=` (only with a value) -/
 structure SAttr where
   ws : Bytes
   key : Bytes
   val : SVal
+  ws1 : Bytes := []
+  ws2 : Bytes := []
   deriving Repr, DecidableEq, Inhabited
 
 /-- a byte at which `read_tag_name_attr_key` continues -/
@@ -172,10 +174,53 @@ def SVal.ok : SVal → Bool
   | .dq v => !v.contains 34
   | .sq v => !v.contains 39
 
-def SAttr.ok (a : SAttr) : Bool :=
-  !a.ws.isEmpty && a.ws.all isWs && !a.key.isEmpty && a.key.all keyByte && a.val.ok
+/-- the value as it stands after the `=` (with its quotes) -/
+def SVal.body : SVal → Bytes
+  | .none => []
+  | .unq v => v
+  | .dq v => [34] ++ v ++ [34]
+  | .sq v => [39] ++ v ++ [39]
 
-def SAttr.text (a : SAttr) : Bytes := a.ws ++ a.key ++ a.val.text
+/-- the value as `tag_attr()` returns it -/
+def SVal.value : SVal → Bytes
+  | .none => []
+  | .unq v => v
+  | .dq v => v
+  | .sq v => v
+
+theorem SVal.text_eq (v : SVal) (h : v ≠ .none) : v.text = 61 :: v.body := by
+  cases v <;> first | exact absurd rfl h | rfl
+
+/-- white space around the `=` is white space, and there is none without a value -/
+def SAttr.wsOK (a : SAttr) : Bool :=
+  a.ws1.all isWs && a.ws2.all isWs && (a.val != .none || (a.ws1.isEmpty && a.ws2.isEmpty))
+
+def SAttr.ok (a : SAttr) : Bool :=
+  !a.ws.isEmpty && a.ws.all isWs && !a.key.isEmpty && a.key.all keyByte && a.val.ok && a.wsOK
+
+/-- the text of the value part: nothing for a bare key, else `ws1 = ws2 value` -/
+def SAttr.vtext (a : SAttr) : Bytes :=
+  match a.val with
+  | .none => []
+  | v => a.ws1 ++ [61] ++ a.ws2 ++ v.body
+
+def SAttr.text (a : SAttr) : Bytes := a.ws ++ a.key ++ a.vtext
+
+theorem SAttr.vtext_none {a : SAttr} (h : a.val = .none) : a.vtext = [] := by
+  unfold SAttr.vtext; rw [h]
+
+theorem SAttr.vtext_some {a : SAttr} (h : a.val ≠ .none) : a.vtext = a.ws1 ++ [61] ++ a.ws2 ++ a.val.body := by
+  unfold SAttr.vtext
+  cases hv : a.val with
+  | none => exact absurd hv h
+  | unq v => rfl
+  | dq v => rfl
+  | sq v => rfl
+
+/-- without white space around the `=` the value text is `SVal.text` -/
+theorem SAttr.vtext_plain {a : SAttr} (h1 : a.ws1 = []) (h2 : a.ws2 = []) : a.vtext = a.val.text := by
+  unfold SAttr.vtext
+  cases hv : a.val <;> simp [h1, h2, SVal.text, SVal.body]
 
 /-- the raw attribute text of a tag -/
 def attrsOf : List SAttr → Bytes
@@ -418,6 +463,69 @@ theorem attrValGo_run_val (t : Tokenizer) (ok : Ok t) (he : t.err = false) (h : 
   have := hr t1.readByte.1 (e4.trans a1.buf) (by rw [e2, hr1]) e3 (readByte_adv a1.ok).ok
   exact ⟨by rw [this.1, e2, hr1]; omega, this.2⟩
 
+/-- at a non-white-space byte `skip_white_space` does nothing -/
+theorem skipWhiteSpace_fix {t : Tokenizer} {d : Nat} (h : t.buf[t.rawE]? = some d) (hd : isWs d = false)
+    (he : t.err = false) : skipWhiteSpace t = t := by
+  have hlt : t.rawE < t.buf.size := by
+    rcases Nat.lt_or_ge t.rawE t.buf.size with h' | h'
+    · exact h'
+    · rw [Array.getElem?_eq_none h'] at h; cases h
+  have hb : t.buf[t.rawE] = d := by rw [Array.getElem?_eq_getElem hlt] at h; injection h
+  unfold skipWhiteSpace
+  rw [if_neg (by rw [he]; exact Bool.false_ne_true), skipWsGo]
+  unfold readByte
+  simp only [hlt, dite_true, he, Bool.false_eq_true, dite_false, hb, hd, if_false]
+  unfold unread
+  simp only [show 1 ≤ t.rawE + 1 by omega, if_true, Nat.add_sub_cancel]
+  cases t
+  simp_all
+
+/-- leading white space before the value is skipped by `attrValRest`'s own `skip_white_space` -/
+theorem attrValRest_run_ws (w2 : Bytes) (c n : Nat) (t : Tokenizer) (ok : Ok t) (he : t.err = false)
+    (h : Has t t.rawE (w2 ++ [c])) (hw : ∀ b ∈ w2, isWs b = true) (hc : isWs c = false)
+    (hr : ∀ u : Tokenizer, u.buf = t.buf → u.rawE = t.rawE + w2.length → u.err = false → Ok u →
+      Stops u (attrValRest u) n) : Stops t (attrValRest t) (w2.length + n) := by
+  have hs := skipWhiteSpace_run w2 c t h hw hc he
+  have a1 := skipWhiteSpace_adv t ok
+  have hfix : skipWhiteSpace (skipWhiteSpace t) = skipWhiteSpace t :=
+    skipWhiteSpace_fix (d := c) (by rw [a1.buf, hs.1]; exact h.right.head) hc hs.2
+  have heq : attrValRest t = attrValRest (skipWhiteSpace t) := by
+    conv => rhs; unfold attrValRest
+    rw [hfix]
+    unfold attrValRest
+    rfl
+  have := hr (skipWhiteSpace t) a1.buf hs.1 hs.2 a1.ok
+  rw [heq]
+  exact ⟨by rw [this.1, hs.1]; omega, this.2⟩
+
+/-- `read_tag_name_attr_value` on `ws1 = ws2 value…`: the white space around the `=` is skipped -/
+theorem attrValGo_run_val2 (w1 w2 : Bytes) (c n : Nat) (t : Tokenizer) (ok : Ok t) (he : t.err = false)
+    (h : Has t t.rawE (w1 ++ [61] ++ w2 ++ [c])) (hw1 : ∀ b ∈ w1, isWs b = true) (hw2 : ∀ b ∈ w2, isWs b = true)
+    (hc : isWs c = false)
+    (hr : ∀ u : Tokenizer, u.buf = t.buf → u.rawE = t.rawE + (w1.length + 1 + w2.length) → u.err = false → Ok u →
+      Stops u (attrValRest u) n) : Stops t (attrValGo t) (w1.length + 1 + w2.length + n) := by
+  have h1 : Has t t.rawE (w1 ++ [61]) := h.left.left
+  have hs := skipWhiteSpace_run w1 61 t h1 hw1 (by decide) he
+  have a1 := skipWhiteSpace_adv t ok
+  have hfix : skipWhiteSpace (skipWhiteSpace t) = skipWhiteSpace t :=
+    skipWhiteSpace_fix (d := 61) (by rw [a1.buf, hs.1]; exact h1.right.head) (by decide) hs.2
+  have heq : attrValGo t = attrValGo (skipWhiteSpace t) := by
+    conv => rhs; unfold attrValGo
+    rw [hfix]
+    unfold attrValGo
+    rfl
+  rw [heq]
+  have h61 : (skipWhiteSpace t).buf[(skipWhiteSpace t).rawE]? = some 61 := by rw [a1.buf, hs.1]; exact h1.right.head
+  have hrest : Has t (t.rawE + (w1.length + 1)) (w2 ++ [c]) := by
+    have : Has t t.rawE ((w1 ++ [61]) ++ (w2 ++ [c])) := by simpa [List.append_assoc] using h
+    simpa using this.right
+  have := attrValGo_run_val (skipWhiteSpace t) a1.ok hs.2 h61 (w2.length + n) (by
+    intro u hb hru hu oku
+    refine attrValRest_run_ws w2 c n u oku hu ((hrest.congr (hb.trans a1.buf)).at (by rw [hru, hs.1]; omega)) hw2 hc ?_
+    intro u' hb' hr' hu' oku'
+    exact hr u' (hb'.trans (hb.trans a1.buf)) (by rw [hr', hru, hs.1]; omega) hu' oku')
+  exact ⟨by rw [this.1, hs.1]; omega, this.2⟩
+
 /-- what follows an attribute: white space `W`, then a non-white-space byte `d` that is not `=` -/
 structure Follow (W : Bytes) (d : Nat) : Prop where
   ws : ∀ b ∈ W, isWs b = true
@@ -444,41 +552,64 @@ theorem readTagAttrVal_run_val (t : Tokenizer) (ok : Ok t) (he : t.err = false) 
     Stops t (readTagAttrVal t) (n + 1) :=
   attrValGo_run_val { t with pvS := t.rawE, pvE := t.rawE } ⟨ok.le, ok.panic, ok.hang, ok.utf8⟩ he h n hr
 
-/-- the value part (`readTagAttrVal`) on `value ++ W ++ [d]`: consumes the value and, for an unquoted value, the white
-space byte that stops it -/
-theorem readTagAttrVal_run (val : SVal) (W : Bytes) (d : Nat) (t : Tokenizer) (ok : Ok t) (he : t.err = false)
+theorem readTagAttrVal_run_val2 (w1 w2 : Bytes) (c n : Nat) (t : Tokenizer) (ok : Ok t) (he : t.err = false)
+    (h : Has t t.rawE (w1 ++ [61] ++ w2 ++ [c])) (hw1 : ∀ b ∈ w1, isWs b = true) (hw2 : ∀ b ∈ w2, isWs b = true)
+    (hc : isWs c = false)
+    (hr : ∀ u : Tokenizer, u.buf = t.buf → u.rawE = t.rawE + (w1.length + 1 + w2.length) → u.err = false → Ok u →
+      Stops u (attrValRest u) n) : Stops t (readTagAttrVal t) (w1.length + 1 + w2.length + n) :=
+  attrValGo_run_val2 w1 w2 c n { t with pvS := t.rawE, pvE := t.rawE } ⟨ok.le, ok.panic, ok.hang, ok.utf8⟩ he
+    (h.congr rfl) hw1 hw2 hc hr
+
+/-- the value part (`readTagAttrVal`) on `ws1 = ws2 value ++ W ++ [d]`: consumes the value and, for an unquoted value, the
+white space byte that stops it -/
+theorem readTagAttrVal_run (val : SVal) (w1 w2 W : Bytes) (d : Nat) (t : Tokenizer) (ok : Ok t) (he : t.err = false)
     (hval : val.ok = true) (hne : val ≠ .none) (f : Follow W d) (hopen : val.open = true → W = [] → d = 62)
-    (h : Has t t.rawE (val.text ++ W ++ [d])) :
-    ∃ k, k ≤ W.length ∧ Stops t (readTagAttrVal t) (val.text.length + k) ∧
+    (hw1 : ∀ b ∈ w1, isWs b = true) (hw2 : ∀ b ∈ w2, isWs b = true)
+    (h : Has t t.rawE (w1 ++ [61] ++ w2 ++ val.body ++ W ++ [d])) :
+    ∃ k, k ≤ W.length ∧ Stops t (readTagAttrVal t) (w1.length + 1 + w2.length + val.body.length + k) ∧
       ∀ b ∈ W.drop k, isWs b = true := by
+  -- the text after the white space and the `=`
+  have hbody : Has t (t.rawE + (w1.length + 1 + w2.length)) (val.body ++ W ++ [d]) := by
+    have : Has t t.rawE ((w1 ++ [61] ++ w2) ++ (val.body ++ W ++ [d])) := by simpa [List.append_assoc] using h
+    exact this.right.at (by simp only [List.length_append, List.length_cons, List.length_nil])
+  have hpre : ∀ c r, val.body ++ W ++ [d] = c :: r → Has t t.rawE (w1 ++ [61] ++ w2 ++ [c]) := by
+    intro c r hcr
+    have : Has t t.rawE ((w1 ++ [61] ++ w2 ++ [c]) ++ r) := by
+      have e : w1 ++ [61] ++ w2 ++ val.body ++ W ++ [d] = (w1 ++ [61] ++ w2 ++ [c]) ++ r := by
+        have : w1 ++ [61] ++ w2 ++ val.body ++ W ++ [d] = (w1 ++ [61] ++ w2) ++ (val.body ++ W ++ [d]) := by
+          simp [List.append_assoc]
+        rw [this, hcr]; simp [List.append_assoc]
+      rw [← e]; exact h
+    exact this.left
+  have at' : ∀ (u : Tokenizer) (l r : Bytes), val.body ++ W ++ [d] = l ++ r → u.buf = t.buf →
+      u.rawE = t.rawE + (w1.length + 1 + w2.length) → Has u u.rawE l := by
+    intro u l r hlr hb hru
+    rw [hlr] at hbody
+    exact (hbody.left.congr hb).at hru
   cases val with
   | none => exact absurd rfl hne
   | dq v =>
     refine ⟨0, Nat.zero_le _, ?_, fun b hb => f.ws b (by simpa using hb)⟩
-    simp only [SVal.text, SVal.ok, Bool.not_eq_true'] at h hval ⊢
+    simp only [SVal.body, SVal.ok, Bool.not_eq_true'] at hval hpre at' ⊢
     have hv : ∀ b ∈ v, b ≠ 34 := by
       intro b hb e; subst e
       have : v.contains 34 = true := by simpa using hb
       rw [this] at hval; cases hval
-    have := readTagAttrVal_run_val t ok he (by simpa using (h.left.left.left).head) (v.length + 2) (by
+    have := readTagAttrVal_run_val2 w1 w2 34 (v.length + 2) t ok he (hpre 34 (v ++ [34] ++ W ++ [d]) (by simp)) hw1 hw2 (by decide) (by
       intro u hb hr hu oku
-      refine attrValRest_run_quoted v 34 u oku (Or.inl rfl) ?_ hv hu
-      have := (Has.right (a := [61]) (b := [34] ++ v ++ [34]) (by simpa [List.append_assoc] using h.left.left))
-      exact (this.congr hb).at (by rw [hr]; rfl))
-    simpa [Nat.add_assoc] using this
+      exact attrValRest_run_quoted v 34 u oku (Or.inl rfl) (at' u ([34] ++ v ++ [34]) (W ++ [d]) (by simp) hb hr) hv hu)
+    exact ⟨by rw [this.1]; simp only [List.length_append, List.length_cons, List.length_nil]; omega, this.2⟩
   | sq v =>
     refine ⟨0, Nat.zero_le _, ?_, fun b hb => f.ws b (by simpa using hb)⟩
-    simp only [SVal.text, SVal.ok, Bool.not_eq_true'] at h hval ⊢
+    simp only [SVal.body, SVal.ok, Bool.not_eq_true'] at hval hpre at' ⊢
     have hv : ∀ b ∈ v, b ≠ 39 := by
       intro b hb e; subst e
       have : v.contains 39 = true := by simpa using hb
       rw [this] at hval; cases hval
-    have := readTagAttrVal_run_val t ok he (by simpa using (h.left.left.left).head) (v.length + 2) (by
+    have := readTagAttrVal_run_val2 w1 w2 39 (v.length + 2) t ok he (hpre 39 (v ++ [39] ++ W ++ [d]) (by simp)) hw1 hw2 (by decide) (by
       intro u hb hr hu oku
-      refine attrValRest_run_quoted v 39 u oku (Or.inr rfl) ?_ hv hu
-      have := (Has.right (a := [61]) (b := [39] ++ v ++ [39]) (by simpa [List.append_assoc] using h.left.left))
-      exact (this.congr hb).at (by rw [hr]; rfl))
-    simpa [Nat.add_assoc] using this
+      exact attrValRest_run_quoted v 39 u oku (Or.inr rfl) (at' u ([39] ++ v ++ [39]) (W ++ [d]) (by simp) hb hr) hv hu)
+    exact ⟨by rw [this.1]; simp only [List.length_append, List.length_cons, List.length_nil]; omega, this.2⟩
   | unq v =>
     cases v with
     | nil => simp [SVal.ok] at hval
@@ -487,31 +618,24 @@ theorem readTagAttrVal_run (val : SVal) (W : Bytes) (d : Nat) (t : Tokenizer) (o
       obtain ⟨⟨⟨hall, hc1⟩, hc2⟩, _⟩ := hval
       have hc : unqByte c = true := hall c (by simp)
       have hv : ∀ b ∈ v, unqByte b = true := fun b hb => hall b (by simp [hb])
-      simp only [SVal.text] at h ⊢
-      have h61 : t.buf[t.rawE]? = some 61 := by
-        have := h 0 (by simp); simpa using this
+      have hcws : isWs c = false := (unqByte_spec hc).1
+      simp only [SVal.body] at hpre at' ⊢
       cases W with
       | nil =>
         have hd62 := hopen rfl rfl
         subst hd62
         refine ⟨0, Nat.zero_le _, ?_, by simp⟩
-        have := readTagAttrVal_run_val t ok he h61 (v.length + 1) (by
+        have := readTagAttrVal_run_val2 w1 w2 c (v.length + 1) t ok he (hpre c (v ++ [] ++ [62]) (by simp)) hw1 hw2 hcws (by
           intro u hb hr hu oku
-          refine attrValRest_run_unq_gt c v u oku ?_ hc hc1 hc2 hv hu
-          have := (Has.right (a := [61]) (b := c :: v ++ [62]) (by simpa [List.append_assoc] using h))
-          exact (this.congr hb).at (by rw [hr]; rfl))
-        simpa [Nat.add_assoc] using this
+          exact attrValRest_run_unq_gt c v u oku (at' u (c :: v ++ [62]) [] (by simp) hb hr) hc hc1 hc2 hv hu)
+        exact ⟨by rw [this.1]; simp only [List.length_append, List.length_cons, List.length_nil]; omega, this.2⟩
       | cons w W' =>
         have hw : isWs w = true := f.ws w (by simp)
         refine ⟨1, by simp, ?_, fun b hb => f.ws b (by simp at hb; simp [hb])⟩
-        have := readTagAttrVal_run_val t ok he h61 (v.length + 2) (by
+        have := readTagAttrVal_run_val2 w1 w2 c (v.length + 2) t ok he (hpre c (v ++ (w :: W') ++ [d]) (by simp)) hw1 hw2 hcws (by
           intro u hb hr hu oku
-          refine attrValRest_run_unq_ws c v w u oku ?_ hc hc1 hc2 hv hw hu
-          have h' : Has t t.rawE (([61] ++ (c :: v ++ [w])) ++ (W' ++ [d])) := by
-            simpa [List.append_assoc] using h
-          have := (Has.right (a := [61]) (b := c :: v ++ [w]) h'.left)
-          exact (this.congr hb).at (by rw [hr]; rfl))
-        simpa [Nat.add_assoc] using this
+          exact attrValRest_run_unq_ws c v w u oku (at' u (c :: v ++ [w]) (W' ++ [d]) (by simp) hb hr) hc hc1 hc2 hv hw hu)
+        exact ⟨by rw [this.1]; simp only [List.length_append, List.length_cons, List.length_nil]; omega, this.2⟩
 
 theorem SVal.text_head {val : SVal} (h : val ≠ .none) : ∃ r, val.text = 61 :: r := by
   cases val with
@@ -520,12 +644,26 @@ theorem SVal.text_head {val : SVal} (h : val ≠ .none) : ∃ r, val.text = 61 :
   | dq v => exact ⟨34 :: (v ++ [34]), rfl⟩
   | sq v => exact ⟨39 :: (v ++ [39]), rfl⟩
 
-/-- one iteration body of the attribute loop on `key ++ value ++ W ++ [d]` -/
-theorem readAttr_run (key : Bytes) (val : SVal) (W : Bytes) (d : Nat) (t : Tokenizer) (save : Bool) (ok : Ok t)
-    (he : t.err = false) (hk : ∀ b ∈ key, keyByte b = true) (hval : val.ok = true) (f : Follow W d)
-    (hopen : val.open = true → W = [] → d = 62)
-    (h : Has t t.rawE (key ++ val.text ++ W ++ [d])) :
-    Stops t (readAttr t save) (key.length + val.text.length + W.length) := by
+/-- what `SAttr.ok` says -/
+theorem SAttr.ok_spec {a : SAttr} (h : a.ok = true) :
+    a.ws ≠ [] ∧ (∀ b ∈ a.ws, isWs b = true) ∧ a.key ≠ [] ∧ (∀ b ∈ a.key, keyByte b = true) ∧ a.val.ok = true ∧
+    (∀ b ∈ a.ws1, isWs b = true) ∧ (∀ b ∈ a.ws2, isWs b = true) ∧ (a.val = .none → a.ws1 = [] ∧ a.ws2 = []) := by
+  simp only [SAttr.ok, SAttr.wsOK, Bool.and_eq_true, Bool.not_eq_true', List.all_eq_true, Bool.or_eq_true, bne_iff_ne,
+    ne_eq, List.isEmpty_iff] at h
+  obtain ⟨⟨⟨⟨⟨h1, h2⟩, h3⟩, h4⟩, h5⟩, ⟨h6, h7⟩, h8⟩ := h
+  refine ⟨by intro e; rw [e] at h1; simp at h1, h2, by intro e; rw [e] at h3; simp at h3, h4, h5, h6, h7, ?_⟩
+  intro hn
+  rcases h8 with h8 | h8
+  · exact absurd hn h8
+  · exact h8
+
+/-- one iteration body of the attribute loop on `key ++ value part ++ W ++ [d]` -/
+theorem readAttr_run (a : SAttr) (W : Bytes) (d : Nat) (t : Tokenizer) (save : Bool) (ok : Ok t)
+    (he : t.err = false) (hok : a.ok = true) (f : Follow W d)
+    (hopen : a.val.open = true → W = [] → d = 62)
+    (h : Has t t.rawE (a.key ++ a.vtext ++ W ++ [d])) :
+    Stops t (readAttr t save) (a.key.length + a.vtext.length + W.length) := by
+  obtain ⟨_, _, _, hk, hval, hw1, hw2, hnone⟩ := SAttr.ok_spec hok
   -- the final `skip_white_space` (the push does not matter)
   have fin : ∀ (t2 : Tokenizer) (W' : Bytes) (m : Nat), Ok t2 → t2.buf = t.buf → t2.err = false → t2.rawE = t.rawE + m →
       (∀ b ∈ W', isWs b = true) → Has t (t.rawE + m) (W' ++ [d]) →
@@ -542,54 +680,81 @@ theorem readAttr_run (key : Bytes) (val : SVal) (W : Bytes) (d : Nat) (t : Token
   unfold readAttr
   simp only
   have ak := readTagAttrKey_adv t ok
-  by_cases hn : val = .none
-  · subst hn
-    simp only [SVal.text, List.append_nil, List.length_nil, Nat.add_zero] at h ⊢
+  by_cases hn : a.val = .none
+  · rw [SAttr.vtext_none hn] at h ⊢
+    simp only [List.append_nil, List.length_nil, Nat.add_zero] at h ⊢
     cases W with
     | nil =>
-      have hd62 := hopen rfl rfl
+      have hd62 := hopen (by rw [hn]; rfl) rfl
       subst hd62
-      have k := readTagAttrKey_run_stop key 62 t (by simpa using h) hk (Or.inr rfl) he
+      have k := readTagAttrKey_run_stop a.key 62 t (by simpa using h) hk (Or.inr rfl) he
       generalize t.readTagAttrKey = t1 at *
-      have hrest : Has t (t.rawE + key.length) ([] ++ [62]) := by
-        simpa using Has.right (a := key) (b := [62]) (by simpa using h)
+      have hrest : Has t (t.rawE + a.key.length) ([] ++ [62]) := by
+        simpa using Has.right (a := a.key) (b := [62]) (by simpa using h)
       have v := readTagAttrVal_run_none [] 62 t1 ak.ok ((hrest.congr ak.buf).at k.1) ⟨by simp, by decide, by decide⟩ k.2
       have av := readTagAttrVal_adv t1 ak.ok
-      have := fin _ [] key.length av.ok (av.buf.trans ak.buf) v.2 (by rw [v.1, k.1]; simp) (by simp) hrest
+      have := fin _ [] a.key.length av.ok (av.buf.trans ak.buf) v.2 (by rw [v.1, k.1]; simp) (by simp) hrest
       simpa using this
     | cons w W' =>
       have hw : isWs w = true := f.ws w (by simp)
-      have h' : Has t t.rawE ((key ++ [w]) ++ (W' ++ [d])) := by simpa [List.append_assoc] using h
-      have k := readTagAttrKey_run_eat key w t h'.left hk (Or.inl hw) he
+      have h' : Has t t.rawE ((a.key ++ [w]) ++ (W' ++ [d])) := by simpa [List.append_assoc] using h
+      have k := readTagAttrKey_run_eat a.key w t h'.left hk (Or.inl hw) he
       generalize t.readTagAttrKey = t1 at *
-      have hrest : Has t (t.rawE + (key.length + 1)) (W' ++ [d]) := by simpa using h'.right
+      have hrest : Has t (t.rawE + (a.key.length + 1)) (W' ++ [d]) := by simpa using h'.right
       have v := readTagAttrVal_run_none W' d t1 ak.ok ((hrest.congr ak.buf).at k.1)
         ⟨fun b hb => f.ws b (by simp [hb]), f.nws, f.n61⟩ k.2
       have av := readTagAttrVal_adv t1 ak.ok
-      have := fin _ [] (key.length + 1 + W'.length) av.ok (av.buf.trans ak.buf) v.2 (by rw [v.1, k.1]; omega) (by simp)
+      have := fin _ [] (a.key.length + 1 + W'.length) av.ok (av.buf.trans ak.buf) v.2 (by rw [v.1, k.1]; omega) (by simp)
         (by have := hrest.right; simpa [Nat.add_assoc] using this)
       exact ⟨by rw [this.1]; simp; omega, this.2⟩
-  · obtain ⟨r, hr⟩ := SVal.text_head hn
-    have h' : Has t t.rawE ((key ++ [61]) ++ (r ++ W ++ [d])) := by
-      rw [hr] at h; simpa [List.append_assoc] using h
-    have k := readTagAttrKey_run_stop key 61 t h'.left hk (Or.inl rfl) he
-    generalize t.readTagAttrKey = t1 at *
-    have hrest : Has t (t.rawE + key.length) (val.text ++ W ++ [d]) := by
-      have := Has.right (a := key) (b := val.text ++ W ++ [d]) (by simpa [List.append_assoc] using h)
-      simpa [List.append_assoc] using this
-    obtain ⟨kk, hkk, v, hdrop⟩ := readTagAttrVal_run val W d t1 ak.ok k.2 hval hn f hopen ((hrest.congr ak.buf).at k.1)
-    have av := readTagAttrVal_adv t1 ak.ok
-    have hrest2 : Has t (t.rawE + (key.length + (val.text.length + kk))) (W.drop kk ++ [d]) := by
-      have h2 : Has t (t.rawE + key.length) ((val.text ++ W.take kk) ++ (W.drop kk ++ [d])) := by
-        have e : val.text ++ W ++ [d] = (val.text ++ W.take kk) ++ (W.drop kk ++ [d]) := by
-          rw [List.append_assoc, List.append_assoc, ← List.append_assoc (W.take kk), List.take_append_drop]
-        rw [← e]; exact hrest
-      have := h2.right
-      simp only [List.length_append, List.length_take, Nat.min_eq_left hkk] at this
-      exact this.at (by omega)
-    have := fin _ (W.drop kk) (key.length + (val.text.length + kk)) av.ok (av.buf.trans ak.buf) v.2
-      (by rw [v.1, k.1]; omega) hdrop hrest2
-    exact ⟨by rw [this.1]; simp; omega, this.2⟩
+  · rw [SAttr.vtext_some hn] at h ⊢
+    -- the key loop stops at the `=`, or eats the first white space byte before it
+    have common : ∀ (t1 : Tokenizer) (w1' : Bytes) (m : Nat), Ok t1 → t1.buf = t.buf → t1.err = false →
+        t1.rawE = t.rawE + m → m + w1'.length = a.key.length + a.ws1.length → (∀ b ∈ w1', isWs b = true) →
+        Has t (t.rawE + m) (w1' ++ [61] ++ a.ws2 ++ a.val.body ++ W ++ [d]) →
+        Stops t ((if save && t1.readTagAttrVal.pkS != t1.readTagAttrVal.pkE then t1.readTagAttrVal.pushPending
+          else t1.readTagAttrVal).skipWhiteSpace)
+          (a.key.length + (a.ws1 ++ [61] ++ a.ws2 ++ a.val.body).length + W.length) := by
+      intro t1 w1' m ok1 hb1 he1 hr1 hm hw1' hh
+      obtain ⟨kk, hkk, v, hdrop⟩ := readTagAttrVal_run a.val w1' a.ws2 W d t1 ok1 he1 hval hn f hopen hw1' hw2
+        ((hh.congr hb1).at hr1)
+      have av := readTagAttrVal_adv t1 ok1
+      have hrest2 : Has t (t.rawE + (m + (w1'.length + 1 + a.ws2.length + a.val.body.length + kk))) (W.drop kk ++ [d]) := by
+        have e : w1' ++ [61] ++ a.ws2 ++ a.val.body ++ W ++ [d] =
+            (w1' ++ [61] ++ a.ws2 ++ a.val.body ++ W.take kk) ++ (W.drop kk ++ [d]) := by
+          simp only [List.append_assoc]
+          rw [← List.append_assoc (W.take kk), List.take_append_drop]
+        rw [e] at hh
+        have := hh.right
+        simp only [List.length_append, List.length_take, Nat.min_eq_left hkk, List.length_cons, List.length_nil] at this
+        exact this.at (by omega)
+      have := fin _ (W.drop kk) (m + (w1'.length + 1 + a.ws2.length + a.val.body.length + kk)) av.ok (av.buf.trans hb1) v.2
+        (by rw [v.1, hr1]; omega) hdrop hrest2
+      exact ⟨by rw [this.1]; simp only [List.length_append, List.length_cons, List.length_nil, List.length_drop]; omega, this.2⟩
+    cases hws1 : a.ws1 with
+    | nil =>
+      rw [hws1] at h
+      have h' : Has t t.rawE ((a.key ++ [61]) ++ (a.ws2 ++ a.val.body ++ W ++ [d])) := by
+        simpa [List.append_assoc] using h
+      have k := readTagAttrKey_run_stop a.key 61 t h'.left hk (Or.inl rfl) he
+      have hrest : Has t (t.rawE + a.key.length) ([] ++ [61] ++ a.ws2 ++ a.val.body ++ W ++ [d]) := by
+        have := Has.right (a := a.key) (b := [61] ++ a.ws2 ++ a.val.body ++ W ++ [d]) (by simpa [List.append_assoc] using h)
+        simpa [List.append_assoc] using this
+      have := common t.readTagAttrKey [] a.key.length ak.ok ak.buf k.2 k.1 (by rw [hws1]) (by simp) hrest
+      rw [hws1] at this
+      exact this
+    | cons w w1' =>
+      rw [hws1] at h
+      have hw : isWs w = true := hw1 w (by rw [hws1]; simp)
+      have h' : Has t t.rawE ((a.key ++ [w]) ++ (w1' ++ [61] ++ a.ws2 ++ a.val.body ++ W ++ [d])) := by
+        simpa [List.append_assoc] using h
+      have k := readTagAttrKey_run_eat a.key w t h'.left hk (Or.inl hw) he
+      have hrest : Has t (t.rawE + (a.key.length + 1)) (w1' ++ [61] ++ a.ws2 ++ a.val.body ++ W ++ [d]) := by
+        simpa using h'.right
+      have := common t.readTagAttrKey w1' (a.key.length + 1) ak.ok ak.buf k.2 k.1 (by rw [hws1]; simp; omega)
+        (fun b hb => hw1 b (by rw [hws1]; simp [hb])) hrest
+      rw [hws1] at this
+      exact this
 
 /-! ### the attribute loop -/
 
@@ -607,7 +772,7 @@ def TagEnd.text : TagEnd → Bytes
 def loopText : List SAttr → Bytes → TagEnd → Bytes
   | [], _, e => e.text
   | a :: rest, trail, e =>
-    a.key ++ a.val.text ++
+    a.key ++ a.vtext ++
       (match rest with
        | [] => trail ++ e.text
        | b :: _ => b.ws ++ loopText rest trail e)
@@ -631,15 +796,13 @@ theorem loopText_head_nws (as : List SAttr) (trail : Bytes) (e : TagEnd) (hok : 
   cases as with
   | nil => cases e <;> exact ⟨_, _, rfl, by decide, by decide⟩
   | cons a rest =>
-    have ha := hok a (by simp)
-    simp only [SAttr.ok, Bool.and_eq_true, Bool.not_eq_true', List.all_eq_true] at ha
-    obtain ⟨⟨⟨⟨_, _⟩, hne⟩, hk⟩, _⟩ := ha
+    obtain ⟨_, _, hne, hk, _⟩ := SAttr.ok_spec (hok a (by simp))
     cases hkey : a.key with
-    | nil => simp [hkey] at hne
+    | nil => exact absurd hkey hne
     | cons c r =>
       have hc := hk c (by rw [hkey]; simp)
       simp only [keyByte, Bool.and_eq_true, Bool.not_eq_true', bne_iff_ne, ne_eq] at hc
-      refine ⟨c, r ++ (a.val.text ++ (match rest with | [] => trail ++ e.text | b :: _ => b.ws ++ loopText rest trail e)), ?_,
+      refine ⟨c, r ++ (a.vtext ++ (match rest with | [] => trail ++ e.text | b :: _ => b.ws ++ loopText rest trail e)), ?_,
         hc.1.1.1, hc.1.2⟩
       cases rest <;> simp [loopText, hkey, List.append_assoc]
 
@@ -707,21 +870,18 @@ theorem tagAttrsGo_run : ∀ (as : List SAttr) (trail : Bytes) (e : TagEnd) (t :
     exact ⟨by rw [f2, hra.1, p.1.1]; rfl, f3⟩
   | a :: rest, trail, e, t, save, ok, he, hok, htr, hend, h => by
     have ha := hok a (by simp)
-    have ha' := ha
-    simp only [SAttr.ok, Bool.and_eq_true, Bool.not_eq_true', List.all_eq_true] at ha'
-    obtain ⟨⟨⟨⟨_, _⟩, hkne⟩, hk⟩, hval⟩ := ha'
+    obtain ⟨_, _, hkne, hk, hval, _, _, _⟩ := SAttr.ok_spec ha
     -- the separator W and the following byte d
     obtain ⟨W, L, hW, hLT, hlen, hcont⟩ : ∃ (W L : Bytes), (∀ b ∈ W, isWs b = true) ∧
-        loopText (a :: rest) trail e = a.key ++ a.val.text ++ W ++ L ∧
-        (loopText (a :: rest) trail e).length = a.key.length + a.val.text.length + W.length + L.length ∧
+        loopText (a :: rest) trail e = a.key ++ a.vtext ++ W ++ L ∧
+        (loopText (a :: rest) trail e).length = a.key.length + a.vtext.length + W.length + L.length ∧
         ((rest = [] ∧ W = trail ∧ L = e.text) ∨
          (∃ b rest', rest = b :: rest' ∧ W = b.ws ∧ L = loopText rest trail e)) := by
       cases rest with
       | nil => exact ⟨trail, e.text, htr, by simp [loopText, List.append_assoc], by simp [loopText]; omega, Or.inl ⟨rfl, rfl, rfl⟩⟩
       | cons b rest' =>
-        have hb := hok b (by simp)
-        simp only [SAttr.ok, Bool.and_eq_true, Bool.not_eq_true', List.all_eq_true] at hb
-        exact ⟨b.ws, loopText (b :: rest') trail e, hb.1.1.1.2, by simp [loopText, List.append_assoc],
+        have hb := SAttr.ok_spec (hok b (by simp))
+        exact ⟨b.ws, loopText (b :: rest') trail e, hb.2.1, by simp [loopText, List.append_assoc],
           by simp [loopText]; omega, Or.inr ⟨b, rest', rfl, rfl, rfl⟩⟩
     -- L starts with a non-white-space byte that is not `=`
     obtain ⟨d, L', hL, hdws, hd61⟩ : ∃ d L', L = d :: L' ∧ isWs d = false ∧ d ≠ 61 := by
@@ -741,29 +901,28 @@ theorem tagAttrsGo_run : ∀ (as : List SAttr) (trail : Bytes) (e : TagEnd) (t :
           · rw [ho] at h1; cases h1
           · rw [← hWt, hw] at h1; simp at h1
       · exfalso
-        have hb := hok b (by rw [hr]; simp)
-        simp only [SAttr.ok, Bool.and_eq_true, Bool.not_eq_true', List.all_eq_true] at hb
-        rw [← hWb, hw] at hb; simp at hb
+        have hb := SAttr.ok_spec (hok b (by rw [hr]; simp))
+        exact hb.1 (by rw [← hWb, hw])
     -- first byte of the key: the loop's look-ahead
     cases hkey : a.key with
-    | nil => simp [hkey] at hkne
+    | nil => exact absurd hkey hkne
     | cons c kr =>
       have hc := hk c (by rw [hkey]; simp)
       have hc62 : c ≠ 62 := by
         simp only [keyByte, Bool.and_eq_true, Bool.not_eq_true', bne_iff_ne, ne_eq] at hc; exact hc.2
       have hhead : t.buf[t.rawE]? = some c := by
-        have : Has t t.rawE (c :: (kr ++ a.val.text ++ W ++ L)) := by
+        have : Has t t.rawE (c :: (kr ++ a.vtext ++ W ++ L)) := by
           rw [hLT, hkey] at h; simpa [List.append_assoc] using h
         exact this.head
       obtain ⟨e1, e2, e3, e4⟩ := read_known hhead he
       have hne : ¬ t.readByte.1.err = true := by rw [e3]; exact Bool.false_ne_true
       have a0 := read_unread_adv ok hne
       have p := peek_run hhead he
-      have hit : Has (t.readByte.1.unread 1) (t.readByte.1.unread 1).rawE (a.key ++ a.val.text ++ W ++ [d]) := by
-        have h1 : Has t t.rawE ((a.key ++ a.val.text ++ W ++ [d]) ++ L') := by
+      have hit : Has (t.readByte.1.unread 1) (t.readByte.1.unread 1).rawE (a.key ++ a.vtext ++ W ++ [d]) := by
+        have h1 : Has t t.rawE ((a.key ++ a.vtext ++ W ++ [d]) ++ L') := by
           rw [hLT, hL] at h; simpa [List.append_assoc] using h
         exact (h1.left.congr a0.buf).at (by rw [p.1.1]; simp)
-      have hra := readAttr_run a.key a.val W d (t.readByte.1.unread 1) save a0.ok p.1.2 hk hval ⟨hW, hdws, hd61⟩ hopen hit
+      have hra := readAttr_run a W d (t.readByte.1.unread 1) save a0.ok p.1.2 ha ⟨hW, hdws, hd61⟩ hopen hit
       have a1 := readAttr_adv (t.readByte.1.unread 1) save a0.ok
       rw [tagAttrsGo]
       have hcnd : ¬ (t.readByte.1.err || t.readByte.2 == 62) = true := by
@@ -782,9 +941,9 @@ theorem tagAttrsGo_run : ∀ (as : List SAttr) (trail : Bytes) (e : TagEnd) (t :
       rw [dif_pos hprog]
       -- the rest of the loop
       have hrawE : ((t.readByte.1.unread 1).readAttr save).rawE =
-          t.rawE + (a.key.length + a.val.text.length + W.length) := by rw [hra.1, p.1.1]; omega
+          t.rawE + (a.key.length + a.vtext.length + W.length) := by rw [hra.1, p.1.1]; omega
       have hLhas : Has ((t.readByte.1.unread 1).readAttr save) ((t.readByte.1.unread 1).readAttr save).rawE L := by
-        have h1 : Has t t.rawE ((a.key ++ a.val.text ++ W) ++ L) := by rw [hLT] at h; exact h
+        have h1 : Has t t.rawE ((a.key ++ a.vtext ++ W) ++ L) := by rw [hLT] at h; exact h
         have := h1.right
         simp only [List.length_append] at this
         exact (this.congr (a0.trans a1).buf).at hrawE
@@ -876,11 +1035,9 @@ theorem readTag_run (nm : Bytes) (as : List SAttr) (trail : Bytes) (e : TagEnd) 
           simp only [List.length_append, List.length_singleton] at this
           simpa [loopText, Nat.add_assoc] using this
       | cons a rest =>
-        have ha := hok a (by simp)
-        simp only [SAttr.ok, Bool.and_eq_true, Bool.not_eq_true', List.all_eq_true] at ha
-        obtain ⟨⟨⟨⟨hwne, hws⟩, _⟩, _⟩, _⟩ := ha
+        obtain ⟨hwne, hws, _⟩ := SAttr.ok_spec (hok a (by simp))
         cases hwse : a.ws with
-        | nil => simp [hwse] at hwne
+        | nil => exact absurd hwse hwne
         | cons w wr =>
           have hw : isWs w = true := hws w (by rw [hwse]; simp)
           have e1 : attrsOf (a :: rest) ++ trail ++ e.text = (w :: wr) ++ loopText (a :: rest) trail e := by
